@@ -917,6 +917,29 @@ func checkArbitrary(c *collector, in []byte, st *arbStats) {
 	}
 }
 
+// checkEmbedded feeds the string to DecodePayloads as one packet among well-formed ones.
+func checkEmbedded(c *collector, in []byte, st *arbStats) {
+	for pos, payload := range [][]byte{
+		append(append([]byte{}, in...), "\x1e2probe"...),
+		append(append([]byte("4hello\x1e"), in...), "\x1e2probe"...),
+		append([]byte("4hello\x1e"), in...),
+	} {
+		st.evals++
+		st.nontriv++
+		var err error
+		pan := guard(func() { _, err = parser.DecodePayloads(bytes.NewReader(payload)) })
+		switch {
+		case pan != "":
+			c.add("arbitrary/"+decoders[2]+"/panic inside a payload: "+pan, len(payload), fmt.Sprintf("DecodePayloads panics on the %d bytes %x (base64-directed packet at position %d of a payload): %s", len(payload), payload, pos, pan), rcase{Part: "arbitrary", InputHex: hex.EncodeToString(payload)})
+			st.note(2, "panic")
+		case err != nil:
+			st.note(2, err.Error())
+		default:
+			st.note(2, "")
+		}
+	}
+}
+
 func (a *arbStats) note(d int, k string) {
 	if a.res[d] == nil {
 		a.res[d] = map[string]int{}
@@ -948,10 +971,10 @@ func partArbitrary(c *collector, tier string) (stats, int, map[string]int) {
 	// chunk 0: every string of length <= 2; chunks 1..256: length 3 by first byte;
 	// chunks 257..: 'b' + every string of length 3..K over a base64-directed alphabet, by first letter
 	stride := 1
-	k := 5
+	k := 7
 	if tier != "thorough" {
 		stride = 251 // prime: every residue of every byte position is visited
-		k = 4
+		k = 6 // (was 4: 'b' + one whole quantum + padding, the shape of seed c11i, needs 5)
 	}
 	na := len(b64Alphabet)
 	var mu sync.Mutex
@@ -984,6 +1007,8 @@ func partArbitrary(c *collector, tier string) (stats, int, map[string]int) {
 			rec = func(s []byte) {
 				if len(s) >= 4 { // shorter ones are part of the all-bytes enumeration
 					checkArbitrary(c, s, &a)
+					// ... and as the first, middle and last packet of a long-polling payload
+					checkEmbedded(c, s, &a)
 				}
 				if len(s) == 1+k {
 					return
